@@ -110,9 +110,12 @@ func init() {
 
 	register(&Property{
 		ID: "C03", Title: "Per-resource event delivery is ordered, gap-free and duplicate-free",
-		Explanation: "Decides: the five queues are updated only in order-preserving forms, including the re-queue of not-yet-processed events before newer ones (FIFO/queues); a worker is woken only on the empty→non-empty transition of a resource queue and never while locks are set (DOM/inch-send), so one worker at a time runs a queue; handleEvent stamps, applies and fans out inside one unlock window with no go statement (CONF/handle-event); Subscriber.Event only enqueues and the continuation of every handler runs on the connection worker (CTX/conn); an applied update advances cache and subscriber versions by exactly one and a stamped event is applied only at its version, hence at most once (PAIR/version-bump, DOM/version-filter); nothing is processed before the hand-over or while the gate is closed, with the in-loop re-test (DOM/event-gate); the bookkeeping of a callback slot (in-flight flag, cached verdict, the slot itself) is finished before the slot's continuations run, so a re-access started from inside a callback is not lost (DOM/drain-reentrancy). Not decided: the capacity countdown of the lock list, delivery by the socket, the 'equivalent derived sequence' exception (C12). Added after seeding round 7: the held-back events of a frame's resources are let through only after the frame that first hands the resources over (PAIR/rpc-resources). Added after seeding round 8: in the edit-script back-tracking, branches that compare the same two LCS-table cells cover every ordering, so the derived sequence is not cut short on a tie (TABLE/lcs-exhaustive; decides the present formulation of the algorithm only). Added after seeding round 9: a query event takes one event lock per query request and each is released once, so later events do not overtake pending answers (PAIR/query-lock). Added after seeding round 10: message handlers take messages in synchronously, in arrival order (FIFO/handler-sync); the loading gate of an already sent resource is not opened again (DOM/ref-shapes). Added after seeding round 11: TABLE/add-run (see C01). Added after the mutation sweep: every early return of unqueueEvents lies on the true edge of queueFlag != 0 (DOM/queue-flag-whole).",
+		Explanation: "Decides: the five queues are updated only in order-preserving forms, including the re-queue of not-yet-processed events before newer ones (FIFO/queues); a worker is woken only on the empty→non-empty transition of a resource queue and never while locks are set (DOM/inch-send), so one worker at a time runs a queue; handleEvent stamps, applies and fans out inside one unlock window with no go statement (CONF/handle-event); Subscriber.Event only enqueues and the continuation of every handler runs on the connection worker (CTX/conn); an applied update advances cache and subscriber versions by exactly one and a stamped event is applied only at its version, hence at most once (PAIR/version-bump, DOM/version-filter); nothing is processed before the hand-over or while the gate is closed, with the in-loop re-test (DOM/event-gate); the bookkeeping of a callback slot (in-flight flag, cached verdict, the slot itself) is finished before the slot's continuations run, so a re-access started from inside a callback is not lost (DOM/drain-reentrancy). Not decided: the capacity countdown of the lock list, delivery by the socket, the 'equivalent derived sequence' exception (C12). Added after seeding round 7: the held-back events of a frame's resources are let through only after the frame that first hands the resources over (PAIR/rpc-resources). Added after seeding round 8: in the edit-script back-tracking, branches that compare the same two LCS-table cells cover every ordering, so the derived sequence is not cut short on a tie (TABLE/lcs-exhaustive; decides the present formulation of the algorithm only). Added after seeding round 9: a query event takes one event lock per query request and each is released once, so later events do not overtake pending answers (PAIR/query-lock). Added after seeding round 10: message handlers take messages in synchronously, in arrival order (FIFO/handler-sync); the loading gate of an already sent resource is not opened again (DOM/ref-shapes). Added after seeding round 11: TABLE/add-run (see C01). Added after the mutation sweep: every early return of unqueueEvents lies on the true edge of queueFlag != 0 (DOM/queue-flag-whole). DOM/lock-gate: see C13. Added after the mutation sweep: stateRequested is stored before the get request on every path (PAIR/requested-once). DOM/resetting-gate: see C12.",
 		Assumptions: baseAssumptions,
 		Rules: []Rule{
+			{Name: "DOM/resetting-gate", Min: 5, Run: ruleResettingGate, Doc: "state events are not applied while a re-fetch is outstanding"},
+			{Name: "PAIR/requested-once", Min: 2, Run: ruleRequestedOnce, Doc: "the get request of a cache entry goes out only after the entry is marked requested: one request per load, one initialisation"},
+			{Name: "DOM/lock-gate", Min: 1, Run: ruleLockGate, Doc: "tasks queued behind a query event run only after all its answers"},
 			{Name: "DOM/queue-flag-whole", Min: 5, Run: ruleQueueFlagWhole, Doc: "the drain of held-back events stops early only while a hold-back reason is set, so queued events are delivered, in order, once the gate opens"},
 			{Name: "DOM/event-target", Min: 1, Run: ruleEventTarget, Doc: "a resource event is applied to the resource it names"},
 			{Name: "TABLE/add-run", Min: 0, Run: ruleAddRun, Doc: "derived adds of one ascending loop move their index along"},
@@ -209,9 +212,11 @@ func init() {
 
 	register(&Property{
 		ID: "C07", Title: "Exactly one response per client request",
-		Explanation: "Decides, for every path and schedule: rpc.HandleRequest performs exactly one Reply per dispatched request, directly or inside a handler continuation, and Reply is called from nowhere else (LIN/reply); every continuation parameter of the handlers and combinators is consumed exactly once on every full path — called, delegated to another linear function, or parked in a pending slot (LIN/continuations); pending callback slots are cleared only after draining, or when the connection itself goes away (LIN/drain: known finding F9 — Dispose drops ready callbacks on a live connection); an answered throttled request always frees its slot, so the access checks queued behind it — and the client requests waiting for them — are not stranded (PAIR/throttle-slot); continuations run on the connection worker (CTX/conn); every outcome of a get response collects the subscribers waiting on it (DOM/answer-waiting); slot bookkeeping is finished before continuations run (DOM/drain-reentrancy). Not decided: liveness (that a parked continuation is eventually run), the readyCallback.loading countdown arithmetic. Added after seeding round 7: a subscription gives its count on a ready callback back only after descending into its references, so the count cannot reach zero twice (PAIR/ready-count). Added after seeding round 9: marshalers put text into a frame only through json.Marshal: a frame that fails to encode answers nothing (PROV/json-text). Added after seeding round 10: OnReady runs its callback at once only for a ready subscription (DOM/onready-inline).  Added after the mutation sweep of round 11: the bookkeeping of a shared access request — flag raised and caller parked before the request, flag lowered and list emptied before the hand-over — holds on every path of both twins (PAIR/access-inflight). Added after seeding round 12: PAIR/gc-countdown serves this property too.",
+		Explanation: "Decides, for every path and schedule: rpc.HandleRequest performs exactly one Reply per dispatched request, directly or inside a handler continuation, and Reply is called from nowhere else (LIN/reply); every continuation parameter of the handlers and combinators is consumed exactly once on every full path — called, delegated to another linear function, or parked in a pending slot (LIN/continuations); pending callback slots are cleared only after draining, or when the connection itself goes away (LIN/drain: known finding F9 — Dispose drops ready callbacks on a live connection); an answered throttled request always frees its slot, so the access checks queued behind it — and the client requests waiting for them — are not stranded (PAIR/throttle-slot); continuations run on the connection worker (CTX/conn); every outcome of a get response collects the subscribers waiting on it (DOM/answer-waiting); slot bookkeeping is finished before continuations run (DOM/drain-reentrancy). Not decided: liveness (that a parked continuation is eventually run), the readyCallback.loading countdown arithmetic. Added after seeding round 7: a subscription gives its count on a ready callback back only after descending into its references, so the count cannot reach zero twice (PAIR/ready-count). Added after seeding round 9: marshalers put text into a frame only through json.Marshal: a frame that fails to encode answers nothing (PROV/json-text). Added after seeding round 10: OnReady runs its callback at once only for a ready subscription (DOM/onready-inline).  Added after the mutation sweep of round 11: the bookkeeping of a shared access request — flag raised and caller parked before the request, flag lowered and list emptied before the hand-over — holds on every path of both twins (PAIR/access-inflight). Added after seeding round 12: PAIR/gc-countdown serves this property too. Added after the mutation sweep: every path of Cache.Subscribe hands the subscriber over or answers it (PAIR/subscribe-answered). Added after the mutation sweep: every path from the worker's drain loop back to it stores the queue (PAIR/worker-queue-reset).",
 		Assumptions: append([]string{"mq.Client.SendRequest completes exactly once (C18)", "a continuation refused by wsConn.Enqueue because the connection is disposing is an accepted drop"}, baseAssumptions...),
 		Rules: []Rule{
+			{Name: "PAIR/worker-queue-reset", Min: 1, Run: ruleWorkerQueueReset, Doc: "the connection worker empties the task queue after running it on every path: no request is processed and answered twice"},
+			{Name: "PAIR/subscribe-answered", Min: 1, Run: ruleSubscribeAnswered, Doc: "Cache.Subscribe hands the subscriber to the entry or answers it with the error, exactly once, on every path"},
 			{Name: "LOCK/balance", Min: 20, Run: ruleLockBalance, Doc: "no path leaves a mutex held: a later request on the resource or connection would block and never be answered"},
 			{Name: "PAIR/gc-countdown", Min: 1, Run: ruleGCCountdown, Doc: "the collector's count-down works on the counts as they are: a subscription is not made ready (and its pending get answer then discarded as a repeat) while a request still waits on it"},
 			{Name: "PAIR/access-inflight", Min: 1, Run: ruleAccessInflight, Doc: "the waiting list of a shared access request is emptied and its in-flight flag lowered before the answer is handed over: no request is answered twice, none is parked for ever"},
@@ -255,9 +260,11 @@ func init() {
 
 	register(&Property{
 		ID: "C09", Title: "Cache entry lifecycle: subscribed before fetch, kept while used, then freed",
-		Explanation: "Decides: getSubscription counts one use on every successful return and none on an error return, errors only when an mq subscription was requested, and with subscribe=true returns only after the entry's mq subscription exists (PAIR/cache-count); callers release the use or hand it to addSubscriber exactly once; a count is released iff a membership was removed and bulk releases equal the set dropped (PAIR/membership); a late or repeated Loaded owns or releases the resource exactly once (PAIR/loaded-handover); eviction re-checks the count under the locks, addCount cancels a pending eviction, removeCount queues the entry exactly at zero, gauges follow the count (DOM/evict); get requests are issued only from addSubscriber / reset (DOM/sub-before-get); a removed entry is cleared from every index it is findable through — base (also for the empty alias), queries, links (DOM/unregister). Not decided: the eviction delay and timers, gauges reading zero at a particular moment. Added after seeding round 7: the connection-side collector marks a held node, or one reached from a kept node, kept — also over an earlier deletion mark — so a shared subscription's cache use is not given back under a live client subscription (DOM/gc-mark). Added after seeding round 8: an entry registered in the cache's index is counted on that very path, because the eviction queue is entered only by releasing a count (PAIR/cache-count). Added after seeding round 9: the use count of a cache entry is touched under the entry's mutex by takers and releasers alike (CTX/guarded-by). Added after seeding round 10: a failed get — denied access included — leaves no connection-level subscription behind (PAIR/direct-count). Added after seeding round 11: an event discarded by the cache is not fanned out either (CONF/handle-event): subscribers that dispose themselves on a delete the cache did not apply would leave their use counts behind. Added after seeding round 12: the reference throttle's queue is only appended to and popped (FIFO/queues). Added after seeding round 13: DOM/unsend-countdown (see C02). Added after seeding round 13: PAIR/query-lock also serves this property — a query variant skipped without giving back its event lock blocks the entry's queue, and with it every later release of the entry.",
+		Explanation: "Decides: getSubscription counts one use on every successful return and none on an error return, errors only when an mq subscription was requested, and with subscribe=true returns only after the entry's mq subscription exists (PAIR/cache-count); callers release the use or hand it to addSubscriber exactly once; a count is released iff a membership was removed and bulk releases equal the set dropped (PAIR/membership); a late or repeated Loaded owns or releases the resource exactly once (PAIR/loaded-handover); eviction re-checks the count under the locks, addCount cancels a pending eviction, removeCount queues the entry exactly at zero, gauges follow the count (DOM/evict); get requests are issued only from addSubscriber / reset (DOM/sub-before-get); a removed entry is cleared from every index it is findable through — base (also for the empty alias), queries, links (DOM/unregister). Not decided: the eviction delay and timers, gauges reading zero at a particular moment. Added after seeding round 7: the connection-side collector marks a held node, or one reached from a kept node, kept — also over an earlier deletion mark — so a shared subscription's cache use is not given back under a live client subscription (DOM/gc-mark). Added after seeding round 8: an entry registered in the cache's index is counted on that very path, because the eviction queue is entered only by releasing a count (PAIR/cache-count). Added after seeding round 9: the use count of a cache entry is touched under the entry's mutex by takers and releasers alike (CTX/guarded-by). Added after seeding round 10: a failed get — denied access included — leaves no connection-level subscription behind (PAIR/direct-count). Added after seeding round 11: an event discarded by the cache is not fanned out either (CONF/handle-event): subscribers that dispose themselves on a delete the cache did not apply would leave their use counts behind. Added after seeding round 12: the reference throttle's queue is only appended to and popped (FIFO/queues). Added after seeding round 13: DOM/unsend-countdown (see C02). Added after seeding round 13: PAIR/query-lock also serves this property — a query variant skipped without giving back its event lock blocks the entry's queue, and with it every later release of the entry. PAIR/requested-once: see C03. DOM/unregister-empty: see C13.",
 		Assumptions: baseAssumptions,
 		Rules: []Rule{
+			{Name: "DOM/unregister-empty", Min: 1, Run: ruleUnregisterEmpty, Doc: "an unsubscribe unregisters a query variant only when its last subscriber is gone"},
+			{Name: "PAIR/requested-once", Min: 2, Run: ruleRequestedOnce, Doc: "one get request per load of a cache entry"},
 			{Name: "PAIR/query-lock", Min: 1, Run: ruleQueryLock, Doc: "every lock a query event places on the entry's event queue is released: the entry's queued releases and evictions are not stranded behind it"},
 			{Name: "DOM/unsend-countdown", Min: 2, Run: ruleUnsendCountdown, Doc: "un-sending counts each child's sent references down whenever the child is sent and counted"},
 			{Name: "PAIR/release-on-teardown", Min: 4, Run: ruleReleaseOnTeardown, Doc: "an evicted cache entry's event subscription is released"},
@@ -300,9 +307,10 @@ func init() {
 
 	register(&Property{
 		ID: "C11", Title: "Disconnect cleanup at any moment",
-		Explanation: "Decides: wsConn.dispose sets the flag and closes the worker channel in one critical section, removes the connection from the cache and from token-reset fan-out, unsubscribes the connection events, disposes every subscription, and leaves the registry (DOM/dispose); Subscription.Dispose releases references and exactly one cache use; Enqueue/Subscribe/Unsubscribe refuse a disposing connection; a late Loaded releases the cache use (PAIR/loaded-handover); late access answers are absorbed (DOM/verdict-store); no call/auth request is issued by a continuation of a disposed connection (CTX/post-dispose); a refused task never strands a throttle slot of other connections (PAIR/throttle-slot); temporary HTTP connections are disposed exactly once on every exit (LIN/temp-conn); sends on the worker channel cannot hit the close (CHAN); teardown takes the connection and cache mutexes in an order that cannot deadlock against the token-reset fan-out (LOCK/order). Not decided: 'no effect on other connections' as a runtime fact beyond the pairing rules of C09. Added after seeding round 7: every service request reads the connection's token and is therefore confined to the connection's worker (CTX/conn), whose queue refuses tasks after the close; a named function that sends a call/auth request hands the dispose test to each closure calling it (CTX/post-dispose). Added after seeding round 8: no function run with the event subscription's mutex held (the tasks of its worker) calls something that takes that mutex again (LOCK/order with held-on-entry states). Added after seeding round 9: a re-access trigger on a disposed subscription starts no access request (DOM/invalidate). Added after seeding round 11: the disposing test that keeps a continuation from sending a call/auth request lies in the continuation itself — a test in front of the creation of the continuation says nothing about the time it runs (CTX/post-dispose). Added after seeding round 12: PAIR/membership serves this property too. Added after the mutation sweep: unsubscribeConn releases the connection's messaging-system subscription whenever there is one, RemoveConn takes the connection out of the token-reset registry, the cache's eviction releases the entry's event subscription (PAIR/release-on-teardown). Added after seeding round 13: DOM/ref-shapes also serves this property — ReleaseRPCResources returns at once for a disposed subscription, so a frame released after the disconnect neither re-opens the event gate nor processes queued events.",
+		Explanation: "Decides: wsConn.dispose sets the flag and closes the worker channel in one critical section, removes the connection from the cache and from token-reset fan-out, unsubscribes the connection events, disposes every subscription, and leaves the registry (DOM/dispose); Subscription.Dispose releases references and exactly one cache use; Enqueue/Subscribe/Unsubscribe refuse a disposing connection; a late Loaded releases the cache use (PAIR/loaded-handover); late access answers are absorbed (DOM/verdict-store); no call/auth request is issued by a continuation of a disposed connection (CTX/post-dispose); a refused task never strands a throttle slot of other connections (PAIR/throttle-slot); temporary HTTP connections are disposed exactly once on every exit (LIN/temp-conn); sends on the worker channel cannot hit the close (CHAN); teardown takes the connection and cache mutexes in an order that cannot deadlock against the token-reset fan-out (LOCK/order). Not decided: 'no effect on other connections' as a runtime fact beyond the pairing rules of C09. Added after seeding round 7: every service request reads the connection's token and is therefore confined to the connection's worker (CTX/conn), whose queue refuses tasks after the close; a named function that sends a call/auth request hands the dispose test to each closure calling it (CTX/post-dispose). Added after seeding round 8: no function run with the event subscription's mutex held (the tasks of its worker) calls something that takes that mutex again (LOCK/order with held-on-entry states). Added after seeding round 9: a re-access trigger on a disposed subscription starts no access request (DOM/invalidate). Added after seeding round 11: the disposing test that keeps a continuation from sending a call/auth request lies in the continuation itself — a test in front of the creation of the continuation says nothing about the time it runs (CTX/post-dispose). Added after seeding round 12: PAIR/membership serves this property too. Added after the mutation sweep: unsubscribeConn releases the connection's messaging-system subscription whenever there is one, RemoveConn takes the connection out of the token-reset registry, the cache's eviction releases the entry's event subscription (PAIR/release-on-teardown). Added after seeding round 13: DOM/ref-shapes also serves this property — ReleaseRPCResources returns at once for a disposed subscription, so a frame released after the disconnect neither re-opens the event gate nor processes queued events. Added after the mutation sweep: every use of the loaded resource in Subscription.Loaded lies behind err == nil (DOM/loaded-either).",
 		Assumptions: baseAssumptions,
 		Rules: []Rule{
+			{Name: "DOM/loaded-either", Min: 2, Run: ruleLoadedEither, Doc: "Subscription.Loaded touches the resource only behind err == nil, also on the path where the closing connection refused the task"},
 			{Name: "DOM/ref-shapes", Min: 1, Run: ruleRefShapes, Doc: "a release that arrives for a disposed subscription returns before it touches state or event queue"},
 			{Name: "PAIR/release-on-teardown", Min: 4, Run: ruleReleaseOnTeardown, Doc: "a closed connection's messaging-system subscription is released and the connection leaves the token-reset registry"},
 			{Name: "DOM/ready-continuation-live", Min: 2, Run: ruleReadyContinuationLive, Doc: "nothing is sent, and no reference counted as sent, for a subscription disposed while an event waited for its references"},
@@ -326,9 +334,10 @@ func init() {
 
 	register(&Property{
 		ID: "C12", Title: "System reset re-fetches exactly the matching resources with a correct diff",
-		Explanation: "Decides the plumbing and protocol clauses only: a matching entry is re-fetched once, with get.<name> and its normalised query, unless a reset is already outstanding; the resetting flag is set before the request and cleared before the answer is processed, in both the throttled and the unthrottled twin; the base resource (unless it is a link) and every cached query variant are visited exactly once, for resources and for access (DOM/reset-protocol); derived events go through handleEvent, state events are dropped only while resetting (CONF/handle-event); invalid patterns match nothing at the recogniser level (TABLE/reject-set); only valid patterns are matched (DOM/valid-patterns); content is replaced copy-on-write (DOM/copy-on-write). NOT decided — the heart of the property: wildcard matching semantics for all names, that the model diff and the LCS edit script transform old into new with indexes in range, that unchanged content yields no event. Added after seeding round 8: TABLE/lcs-exhaustive (see C03) for the derived add/remove sequence of a re-fetched collection. Added after seeding round 11: the kind of an answer is decided by which member is present, never by its size, so a reset that empties a resource produces its remove / delete-action events (TABLE/kind-by-presence); a run of adds emitted by one ascending loop moves its index along (TABLE/add-run).  Added after seeding round 12: every path of ResourcePattern.Match that returns the comparison of the name with the pattern text has established that the pattern has no wildcard (TABLE/match-literal; one shape condition of the matcher, not its correctness). Added after seeding round 12: the marking of missing keys runs for every re-fetched model (DOM/diff-unconditional). Added after seeding round 13: DOM/invalidate (see C05/C06) also serves this property — a reset access pattern re-requests access with the cached verdict cleared. Added after the mutation sweep: handleResetAccess agrees with handleResetResource on every abstract path (TWIN/agree). Added after the mutation sweep: the model diff drops equal properties and only those; an empty diff builds no event (DOM/diff-drops-equal; Value.Equal itself is not decided).",
+		Explanation: "Decides the plumbing and protocol clauses only: a matching entry is re-fetched once, with get.<name> and its normalised query, unless a reset is already outstanding; the resetting flag is set before the request and cleared before the answer is processed, in both the throttled and the unthrottled twin; the base resource (unless it is a link) and every cached query variant are visited exactly once, for resources and for access (DOM/reset-protocol); derived events go through handleEvent, state events are dropped only while resetting (CONF/handle-event); invalid patterns match nothing at the recogniser level (TABLE/reject-set); only valid patterns are matched (DOM/valid-patterns); content is replaced copy-on-write (DOM/copy-on-write). NOT decided — the heart of the property: wildcard matching semantics for all names, that the model diff and the LCS edit script transform old into new with indexes in range, that unchanged content yields no event. Added after seeding round 8: TABLE/lcs-exhaustive (see C03) for the derived add/remove sequence of a re-fetched collection. Added after seeding round 11: the kind of an answer is decided by which member is present, never by its size, so a reset that empties a resource produces its remove / delete-action events (TABLE/kind-by-presence); a run of adds emitted by one ascending loop moves its index along (TABLE/add-run).  Added after seeding round 12: every path of ResourcePattern.Match that returns the comparison of the name with the pattern text has established that the pattern has no wildcard (TABLE/match-literal; one shape condition of the matcher, not its correctness). Added after seeding round 12: the marking of missing keys runs for every re-fetched model (DOM/diff-unconditional). Added after seeding round 13: DOM/invalidate (see C05/C06) also serves this property — a reset access pattern re-requests access with the cached verdict cleared. Added after the mutation sweep: handleResetAccess agrees with handleResetResource on every abstract path (TWIN/agree). Added after the mutation sweep: the model diff drops equal properties and only those; an empty diff builds no event (DOM/diff-drops-equal; Value.Equal itself is not decided). Added after the mutation sweep: the appliers of state events and the start of a re-fetch lie behind resetting == false (DOM/resetting-gate).",
 		Assumptions: baseAssumptions,
 		Rules: []Rule{
+			{Name: "DOM/resetting-gate", Min: 5, Run: ruleResettingGate, Doc: "while a re-fetch is outstanding no state event is applied to the cached copy and no second re-fetch is started"},
 			{Name: "DOM/diff-drops-equal", Min: 3, Run: ruleDiffDropsEqual, Doc: "the model diff of a re-fetch drops a property exactly behind the lookup's ok and Value.Equal, and builds no event for an empty diff"},
 			{Name: "TWIN/agree", Min: 0, Run: ruleTwinAgree, Doc: "the resource and the access variant of a reset visit the same subscriptions of an entry: base unless it is a link, every query variant once"},
 			{Name: "DOM/invalidate", Min: 1, Run: ruleInvalidate, Doc: "the access re-check a reset asks for clears the cached verdict before it asks again"},
@@ -351,9 +360,11 @@ func init() {
 
 	register(&Property{
 		ID: "C13", Title: "Query resources: shared normalised queries, atomic query-event handling",
-		Explanation: "Decides: the queue is locked with len(queries) of the map that is iterated unmodified, each iteration releases exactly one lock on every outcome of its request (all early returns are inside the unlock task), nothing returns between locking and the end of the iteration, locks are installed only for a positive count; the request goes to the event's subject with the range key as query; answers are applied through per-iteration values, full model/collection answers only behind the matching kind test (PAIR/query-lock); no deferred closure captures a shared loop variable (DOM/loopvar); an initial load re-initialises an entry only under the not-loaded test of that same entry, so an alias arriving later cannot reset a shared resource (PAIR/version-bump); a repeated Loaded is ignored (LIN/loaded-once); Enqueue wakes no worker while locks are set (DOM/inch-send); unregister clears base / queries / links including the empty alias (DOM/unregister); every outcome of a get response collects the waiting subscribers (DOM/answer-waiting). Not decided: the capacity countdown arithmetic of the lock list; two aliasing gets in flight beyond the loaded-once guard. Added after seeding round 8: a query request that got no answer changes nothing — every path of its completion that applies something has established that the request error is nil (DOM/query-request-error). Added after seeding round 10: a deleted query resource drops its subscribers (PAIR/membership). Added after seeding round 11: a query event is dropped only by the listed discards — nothing cached under a query, malformed payload, missing subject (CONF/query-event-discards). Added after seeding round 12: PAIR/alias-recorded (see C15); events are fanned out to the subscriber set as it is (DOM/fanout-set). Added after seeding round 13: whether a query variant is asked depends on its load state only — not on a reset under way (DOM/query-event-all).",
+		Explanation: "Decides: the queue is locked with len(queries) of the map that is iterated unmodified, each iteration releases exactly one lock on every outcome of its request (all early returns are inside the unlock task), nothing returns between locking and the end of the iteration, locks are installed only for a positive count; the request goes to the event's subject with the range key as query; answers are applied through per-iteration values, full model/collection answers only behind the matching kind test (PAIR/query-lock); no deferred closure captures a shared loop variable (DOM/loopvar); an initial load re-initialises an entry only under the not-loaded test of that same entry, so an alias arriving later cannot reset a shared resource (PAIR/version-bump); a repeated Loaded is ignored (LIN/loaded-once); Enqueue wakes no worker while locks are set (DOM/inch-send); unregister clears base / queries / links including the empty alias (DOM/unregister); every outcome of a get response collects the waiting subscribers (DOM/answer-waiting). Not decided: the capacity countdown arithmetic of the lock list; two aliasing gets in flight beyond the loaded-once guard. Added after seeding round 8: a query request that got no answer changes nothing — every path of its completion that applies something has established that the request error is nil (DOM/query-request-error). Added after seeding round 10: a deleted query resource drops its subscribers (PAIR/membership). Added after seeding round 11: a query event is dropped only by the listed discards — nothing cached under a query, malformed payload, missing subject (CONF/query-event-discards). Added after seeding round 12: PAIR/alias-recorded (see C15); events are fanned out to the subscriber set as it is (DOM/fanout-set). Added after seeding round 13: whether a query variant is asked depends on its load state only — not on a reset under way (DOM/query-event-all). Added after the mutation sweep: every path of processQueue that runs a queued task has found the lock set absent or used up (DOM/lock-gate). Added after the mutation sweep: unregister in Unsubscribe lies behind len(subs) == 0 (DOM/unregister-empty).",
 		Assumptions: baseAssumptions,
 		Rules: []Rule{
+			{Name: "DOM/unregister-empty", Min: 1, Run: ruleUnregisterEmpty, Doc: "an unsubscribe unregisters a query variant only when its last subscriber is gone"},
+			{Name: "DOM/lock-gate", Min: 1, Run: ruleLockGate, Doc: "the worker runs an entry's queued tasks only with no event lock outstanding: events behind a query event do not overtake its answers"},
 			{Name: "DOM/query-event-all", Min: 1, Run: ruleQueryEventAll, Doc: "a query event is put to every loaded query variant: the skip decision reads the variant's load state only"},
 			{Name: "DOM/fanout-set", Min: 2, Run: ruleFanoutSet, Doc: "events derived from a query answer reach every subscriber of the shared resource, also one aliased onto it after it was warm"},
 			{Name: "PAIR/alias-recorded", Min: 1, Run: ruleAliasRecorded, Doc: "every alias of a normalised query resource is on its alias list"},
@@ -391,9 +402,10 @@ func init() {
 
 	register(&Property{
 		ID: "C15", Title: "Crash freedom and containment of malformed input",
-		Explanation: "Decides the panic classes that have a crisp rule: decoders return no data with an error, so log-and-continue callers cannot apply a partial message, and return the decoded object whenever they report success, so callers that dereference it cannot hit nil (DOM/all-or-nothing); decoded indexes reach slice operations only inside [0,len] with the exact bound for element access vs slicing, content is dereferenced only for the right kind (DOM/index-kind-guard); optional decoded pointers are dereferenced under their nil test or a predicate implying it, null elements of decoded pointer slices are rejected (DOM/opt-deref); explicit panics and unchecked type assertions are the listed ones (CENSUS/panic); no send on a channel that may have been closed (CHAN: known finding F5 for Cache.inCh); recursive cycles are the listed ones with checked guards (REC/census); the mutex acquisition graph is acyclic (LOCK/order); one Done per throttle slot, so the 'negative running counter' panic is unreachable (PAIR/throttle-slot); a failed or malformed re-fetch closes the reset window, so later valid messages are processed normally (DOM/reset-protocol). Not decided: index safety of lcs, ResourcePattern.Match, byte scans in UnmarshalJSON, encoder buffers; JSON library behaviour; memory exhaustion. Added after seeding round 8: a failed query request releases the event lock, so later messages are still processed (PAIR/query-lock). Added after seeding round 10: a value object naming two of rid, action and data is refused (TABLE/value-object); an answer carrying an error is an error (DOM/error-wins). Added after seeding round 11: every message is decoded as a whole — json.Unmarshal, or a streaming decode followed by a probe for trailing input (TABLE/whole-input); the kind of an answer is decided by the member that is present (TABLE/kind-by-presence).  Added after seeding round 12: an alias of a normalised query resource — base pointer or links entry — is recorded in the resource's alias list on the same path (PAIR/alias-recorded). Added after the mutation sweep (generic crash-freedom rules, each over every site of its kind in the repository): values of comma-ok lookups are dereferenced only where found (DOM/lookup-ok); elements at constant positions are read only under a length test (DOM/const-index); pointer members that are nil for part of their object's life are used only under their nil test (DOM/optional-field); results of fallible calls are looked into only after the error was found nil, and decoders report success only under err == nil of json.Unmarshal (ERR/checked-before-use); map members created on demand are written only where they exist (DOM/map-made); every function leaves each mutex as it found it (LOCK/balance) and touches the fields a mutex guards only with it held (LOCK/guarded-fields); the collector's graph walks terminate on cycles (REC/gc-terminates). Added after seeding round 13: an element read at the position of a loop counter lies behind some test of the counter, so a scan cannot run off the end of an input made of skipped bytes only (DOM/loop-index; decides that a test exists, not that it is the right one).",
+		Explanation: "Decides the panic classes that have a crisp rule: decoders return no data with an error, so log-and-continue callers cannot apply a partial message, and return the decoded object whenever they report success, so callers that dereference it cannot hit nil (DOM/all-or-nothing); decoded indexes reach slice operations only inside [0,len] with the exact bound for element access vs slicing, content is dereferenced only for the right kind (DOM/index-kind-guard); optional decoded pointers are dereferenced under their nil test or a predicate implying it, null elements of decoded pointer slices are rejected (DOM/opt-deref); explicit panics and unchecked type assertions are the listed ones (CENSUS/panic); no send on a channel that may have been closed (CHAN: known finding F5 for Cache.inCh); recursive cycles are the listed ones with checked guards (REC/census); the mutex acquisition graph is acyclic (LOCK/order); one Done per throttle slot, so the 'negative running counter' panic is unreachable (PAIR/throttle-slot); a failed or malformed re-fetch closes the reset window, so later valid messages are processed normally (DOM/reset-protocol). Not decided: index safety of lcs, ResourcePattern.Match, byte scans in UnmarshalJSON, encoder buffers; JSON library behaviour; memory exhaustion. Added after seeding round 8: a failed query request releases the event lock, so later messages are still processed (PAIR/query-lock). Added after seeding round 10: a value object naming two of rid, action and data is refused (TABLE/value-object); an answer carrying an error is an error (DOM/error-wins). Added after seeding round 11: every message is decoded as a whole — json.Unmarshal, or a streaming decode followed by a probe for trailing input (TABLE/whole-input); the kind of an answer is decided by the member that is present (TABLE/kind-by-presence).  Added after seeding round 12: an alias of a normalised query resource — base pointer or links entry — is recorded in the resource's alias list on the same path (PAIR/alias-recorded). Added after the mutation sweep (generic crash-freedom rules, each over every site of its kind in the repository): values of comma-ok lookups are dereferenced only where found (DOM/lookup-ok); elements at constant positions are read only under a length test (DOM/const-index); pointer members that are nil for part of their object's life are used only under their nil test (DOM/optional-field); results of fallible calls are looked into only after the error was found nil, and decoders report success only under err == nil of json.Unmarshal (ERR/checked-before-use); map members created on demand are written only where they exist (DOM/map-made); every function leaves each mutex as it found it (LOCK/balance) and touches the fields a mutex guards only with it held (LOCK/guarded-fields); the collector's graph walks terminate on cycles (REC/gc-terminates). Added after seeding round 13: an element read at the position of a loop counter lies behind some test of the counter, so a scan cannot run off the end of an input made of skipped bytes only (DOM/loop-index; decides that a test exists, not that it is the right one). DOM/loaded-either: see C11.",
 		Assumptions: baseAssumptions,
 		Rules: []Rule{
+			{Name: "DOM/loaded-either", Min: 2, Run: ruleLoadedEither, Doc: "no nil dereference of the resource of a failed load"},
 			{Name: "DOM/loop-index", Min: 0, Run: ruleLoopIndex, Doc: "an element read at the position of a counting loop variable lies behind a test of that variable"},
 			{Name: "DOM/optional-hook", Min: 3, Run: ruleOptionalHook, Doc: "a hook that may be unset is called only under its non-nil test"},
 			{Name: "REC/gc-terminates", Min: 3, Run: ruleGCTerminates, Doc: "the collector's walks over the reference graph end on every graph, cycles included (no stack overflow on the connection worker)"},
